@@ -366,8 +366,20 @@ def s6(ctx, rep):
         rep.put(ok_shape and got == want, "S6", "agreement", f"TuningStatus.{prop} counts Status.{'/'.join(sorted(want))}", f, None,
                 f"counts {sorted(got)}", f"counts {sorted(got)}, the name promises {sorted(want)}")
     g = c.methods["_num_trials"]
-    ok = any(isinstance(x, ast.Call) and fn_name(x) == "sum" for x in walk_shallow(g.node)) and \
-        "last_trial_status_seen" in U(g.node)
+    # a count over the last-seen table: sum(<status> in <wanted> for ...) or sum(1 for ... if <status> in <wanted>)
+    ok = False
+    for x in walk_shallow(g.node):
+        if isinstance(x, ast.Call) and fn_name(x) == "sum" and x.args and isinstance(x.args[0], (ast.GeneratorExp, ast.ListComp)) \
+                and len(x.args[0].generators) == 1:
+            ge = x.args[0]
+            gen = ge.generators[0]
+            if not ("self.last_trial_status_seen" in U(gen.iter) and fn_name(gen.iter) in ("values", "items")):
+                continue
+            tv = {y.id for y in ast.walk(gen.target) if isinstance(y, ast.Name)}
+            member = lambda e: isinstance(e, ast.Compare) and len(e.ops) == 1 and isinstance(e.ops[0], ast.In) and \
+                isinstance(e.left, ast.Name) and e.left.id in tv
+            if (member(ge.elt) and not gen.ifs) or (isinstance(ge.elt, ast.Constant) and ge.elt.value == 1 and len(gen.ifs) == 1 and member(gen.ifs[0])):
+                ok = True
     rep.put(ok, "S6", "agreement", "TuningStatus._num_trials sums membership over last_trial_status_seen", g, None, "")
     ws = ctx.writers("last_trial_status_seen", classes=["TuningStatus"])
     allowed = {"__init__", "update", "mark_running_job_as_stopped"}
